@@ -157,17 +157,26 @@ func (t *Target) denyByIP(ip net.IP) bool {
 // ProcessAccessRules processes access rules from options specified on the target route
 func (t *Target) ProcessAccessRules() error {
 	if t.Opts["allow"] != "" && t.Opts["deny"] != "" {
+		t.denyAll()
 		return errors.New("specifying allow and deny on the same route is not supported")
 	}
 
 	for _, allowDeny := range []string{"allow", "deny"} {
 		if t.Opts[allowDeny] != "" {
 			if err := t.parseAccessRule(allowDeny); err != nil {
+				t.denyAll()
 				return err
 			}
 		}
 	}
 	return nil
+}
+
+// denyAll replaces the access rules of a target whose rule options cannot be
+// used by an empty allow list, which admits nobody: the operator asked for a
+// restriction, so the route must not be served without one.
+func (t *Target) denyAll() {
+	t.accessRules = map[string][]interface{}{ipAllowTag: {}}
 }
 
 func (t *Target) parseAccessRule(allowDeny string) error {
